@@ -38,3 +38,15 @@ func IDs() []string {
 	sort.Strings(out)
 	return out
 }
+
+// PatternsOf returns the package patterns a property's check loads ("./..." when it loads everything).
+func PatternsOf(id string) []string {
+	p := Get(id)
+	if p == nil {
+		return nil
+	}
+	if p.All || len(p.Patterns) == 0 {
+		return []string{"./..."}
+	}
+	return p.Patterns
+}
